@@ -421,17 +421,22 @@ func e2(engine string) {
 			}
 		}
 		small := []byte(`{"model":"m1","messages":[{"role":"user","content":"hi"}]}`)
-		for _, method := range []string{"POST", "PUT", "PATCH", "DELETE", "GET"} {
+		for _, method := range []string{"POST", "PUT", "PATCH", "DELETE", "GET", "OPTIONS"} {
 			for _, query := range []string{"", "a=1&b=%20x", "x=%2F..%2F&&="} {
 				for _, prefix := range []string{"/olla/proxy", "/olla/openai", "/olla/openai-compatible"} {
 					// remainders that repeat route prefixes and the endpoint's base path (an olla in front of an olla,
 					// a backend whose own paths start like a prefix): the route prefix is removed exactly once
 					for _, rest := range []string{"/v1/chat/completions", "/v1/embeddings", "/olla/openai/v1/chat/completions", "/olla/proxy/v1/x", "/olla", "/openai/v1/models", "/proxy/x", "/base/v1/x", "/olla/olla/x"} {
 						b := small
-						if method == "GET" || method == "DELETE" {
+						if method == "GET" || method == "DELETE" || method == "OPTIONS" {
 							b = nil
 						}
 						one("routes", method, prefix, rest, query, b, false, "application/json")
+						if b == nil && rest == "/v1/chat/completions" {
+							// a body is legal on every method (Ollama's DELETE /api/delete carries one): it is forwarded as sent
+							one("routes-body-on-any-method", method, prefix, rest, query, small, false, "application/json")
+							one("routes-body-on-any-method", method, prefix, rest, query, small, true, "application/json")
+						}
 					}
 				}
 			}
